@@ -63,9 +63,13 @@ def levels_of(sh):
     return 0
 
 
-def build(sh, n, badness, path='L0', top=True):
+def build(sh, n, badness, path='L0', top=True, lvl=0, big=None):
     """Object of shape sh with containers of size n at every level.  badness: None (all good) | 'all' | ('at', i) bad leaf
-    in item i of the TOP container only | ('slot', j) bad j-th slot of a fixed tuple (its other slots stay conforming)."""
+    in item i of the TOP container only | ('slot', j) bad j-th slot of a fixed tuple (its other slots stay conforming).
+    big = nesting level that alone gets size n (every other level gets 3): used for sizes whose power would explode."""
+    n_all = n
+    if big is not None and lvl != big:
+        n = 3
     if isinstance(sh, str):
         typ, good, bad = LEAF[sh]
         return bad if badness == 'all' or badness == 'leafbad' else good
@@ -85,7 +89,7 @@ def build(sh, n, badness, path='L0', top=True):
                 v = (bad if b in ('all', 'leafbad') else good)
                 items.append(v + i if isinstance(v, int) else v + str(i))
             else:
-                items.append(build(sh[1], n, b if b in ('all', 'leafbad', None) else None, path + '.i', False))
+                items.append(build(sh[1], n_all, b if b in ('all', 'leafbad', None) else None, path + '.i', False, lvl + 1, big))
         obj = cls(items)
         return S.with_label(obj, path)
     if tag in C2:
@@ -96,10 +100,10 @@ def build(sh, n, badness, path='L0', top=True):
             if isinstance(badness, tuple) and badness[0] == 'at':
                 b = 'leafbad' if i == badness[1] % n and top else None
             kb = None
-            k = build(sh[1], n, kb, path + '.k', False)
+            k = build(sh[1], n_all, kb, path + '.k', False, lvl + 1, big)
             if isinstance(k, (int, str)):
                 k = (k + i) if isinstance(k, int) else k + str(i)
-            v = build(sh[2], n, b if b in ('all', 'leafbad', None) else None, path + '.v', False)
+            v = build(sh[2], n_all, b if b in ('all', 'leafbad', None) else None, path + '.v', False, lvl + 1, big)
             pairs.append((k, v))
         if cls is S.CDefaultDict:
             obj = cls(None, pairs)
@@ -114,11 +118,19 @@ def build(sh, n, badness, path='L0', top=True):
                 b = 'all'
             elif isinstance(badness, tuple) and badness[0] == 'slot' and badness[1] == j:
                 b = 'leafbad' if isinstance(c, str) else 'all'
-            slots.append(build(c, n, b, f'{path}.s{j}', False))
+            slots.append(build(c, n_all, b, f'{path}.s{j}', False, lvl + 1, big))
         return tuple(slots)
     if tag == 'opt':
-        return build(sh[1], n, badness, path, top)
+        return build(sh[1], n_all, badness, path, top, lvl, big)
     raise ValueError(sh)
+
+
+def nest(sh):
+    if isinstance(sh, str):
+        return 0
+    if sh[0] == 'opt':
+        return nest(sh[1])
+    return 1 + max(nest(c) for c in sh[1:])
 
 
 def shapes(tier):
@@ -182,9 +194,11 @@ def run_shape(idx):
         for fill in fillings(sh):
             for r in (0, 1, 5):
                 groups = {}
-                for n in sizes:
+                # sizes above 64 are applied to one nesting level at a time (n ** depth items otherwise)
+                plan = [(n, None) for n in sizes if n <= 64] + [(n, lv) for n in sizes if n > 64 for lv in range(max(1, nest(sh)))]
+                for n, big in plan:
                     for entry in ENTRIES:
-                        x = build(sh, n, fill)
+                        x = build(sh, n, fill, big=big)
                         del S.LOG[:]
                         drive.DRAW[0] = r
                         try:
